@@ -126,6 +126,9 @@ type page struct {
 // Moving is the goroutine an interleaved run has just let go (-1 outside interleaved runs).
 var Moving = -1
 
+// BeforeMove (may be nil) is told which goroutine an interleaved run is about to let go.
+var BeforeMove func(who int)
+
 // FreshBuffers counts the Buffers the runtime pool had to construct (bufferPool.New) since Setup.
 var FreshBuffers int64
 
@@ -583,6 +586,9 @@ func Interleaved(sc *Scenario, sched []int, observe func(v Visit, clients []*Cli
 	done := make([]bool, n)
 	move := func(i int) {
 		Moving = i
+		if BeforeMove != nil {
+			BeforeMove(i)
+		}
 		goCh[i] <- struct{}{}
 		where := <-ack[i]
 		if where == "done" {
